@@ -11,7 +11,7 @@ from checks import treegen
 from checks.C04 import tname
 
 
-def sugar_table(p1, p2):
+def sugar_table(p1, p2, inp=(True, True, True, True)):
     """abstract description of the application wsugar::W of harness/tree_driver.cpp (built with the REAL rParamI / rToggle / rRecur / rRecurp /
     rRecurs / rEnabledBy macros); ids as the driver assigns them; the pointer sub-trees are null or not according to the state"""
     L = treegen.lit
@@ -22,11 +22,20 @@ def sugar_table(p1, p2):
         pat = dict(segs=segs, types=dict(has=False, alts=[]))
         return dict(id=i, name=[ord(c) for c in treegen.render(pat)], pat=pat, leaf=False, meta=treegen.meta_bytes([("enabled by", "en")]) if enabledby else [], ptr=ptr, enabledby=enabledby,
                     sub=dict(dflt=False, ports=[leaf(base + 1, "u", ["", "i"]), leaf(base + 2, "v", ["", "i"])]))
+    def arr_elem(i, present):
+        # "arr#2/" written out as its two elements (same port, same id), because what lies below differs per element: the pointers inp#2/ of each
+        def inp(j):
+            pat = dict(segs=[L("inp%d/" % j)], types=dict(has=False, alts=[]))
+            return dict(id=73, name=[ord(c) for c in treegen.render(pat)], pat=pat, leaf=False, meta=[], ptr="member" if present[j] else "null", enabledby=0,
+                        sub=dict(dflt=False, ports=[leaf(81, "w", ["", "i"])]))
+        pat = dict(segs=[L("arr%d/" % i)], types=dict(has=False, alts=[]))
+        return dict(id=7, name=[ord(c) for c in treegen.render(pat)], pat=pat, leaf=False, meta=[], ptr="member", enabledby=0,
+                    sub=dict(dflt=False, ports=[leaf(71, "u", ["", "i"]), leaf(72, "v", ["", "i"]), inp(0), inp(1)]))
     return dict(dflt=False, ports=[
         leaf(1, "x", ["", "i"]), leaf(2, "en", ["", "T", "F"], treegen.meta_bytes([("toggle", None)])),
         sub(3, [L("m/")], 30, enabledby=2), leaf(4, "m", [""]),
         sub(5, [L("p1/")], 50, ptr="member" if p1 else "null"), sub(6, [L("p2/")], 60, ptr="member" if p2 else "null"),
-        sub(7, [L("arr"), dict(k="enum", n=2), L("/")], 70)])
+        arr_elem(0, inp[0:2]), arr_elem(1, inp[2:4])])
 
 
 def run_walk(ctx, inputs, tag, mode="walk"):
@@ -34,7 +43,7 @@ def run_walk(ctx, inputs, tag, mode="walk"):
     with open(inp, "w") as f:
         for x in inputs:
             d = dict(table=x["table"], rt=x.get("rt", False), multi=x.get("multi", False), state={str(k): v for k, v in x.get("state", {}).items()})
-            for k in ("p1", "p2", "en"):
+            for k in ("p1", "p2", "en", "inp"):
                 if k in x:
                     d[k] = x[k]
             f.write(json.dumps(d, separators=(",", ":")) + "\n")
@@ -61,7 +70,7 @@ def run_walk(ctx, inputs, tag, mode="walk"):
 def run(ctx):
     ctx.rule = ("every table of PortTreeGen (flat4, struct2/3) and seeded random tables (depth 1..4, #N at any level, multi-component sub-tree names like "
                 "a#2/x#2/z/, ':types'; with a runtime object: null pointers and sibling 'enabled by' toggles in every on/off state) x name-buffer prefixes "
-                "'', '/', '/x/'; plus one application built with the real rRecur/rRecurp/rRecurs/rEnabledBy/rToggle macros in all 8 states of its two pointers and its toggle, with and without runtime object; evaluations = walks + reported addresses dispatched; non-trivial = distinct (table, state) reporting >= 6 addresses")
+                "'', '/', '/x/'; plus one application built with the real rRecur/rRecurp/rRecurs/rEnabledBy/rToggle macros in all 128 states of its two pointers, its toggle and the four pointers of an enumerated pointer sub-tree nested in an enumerated sub-tree, with and without runtime object; evaluations = walks + reported addresses dispatched; non-trivial = distinct (table, state) reporting >= 6 addresses")
     ctx.assumptions = ["generated tables: sub-tree callbacks of the harness follow the rRecur*/rRecurp contract (set the child object, null pointer => skip)",
                        "dispatch of reported addresses is only required for single-component sub-tree names (the SNIP contract of the sugar callbacks)",
                        "enabling toggles are siblings of the sub-tree they enable"]
@@ -96,7 +105,8 @@ def run(ctx):
         inputs.append(dict(table=tb, rt=False, multi=multi, state={t: True for t in treegen_all_toggles(tb)}))
     n += run_walk(ctx, inputs, "random")
     # the same walk over an application built with the library's own sub-tree macros, in every state of its two pointers and its enabling toggle
-    sug = [dict(table=sugar_table(p1, p2), rt=rt, p1=p1, p2=p2, en=en, state={2: en}) for p1 in (False, True) for p2 in (False, True) for en in (False, True) for rt in (False, True)]
+    sug = [dict(table=sugar_table(p1, p2, inp), rt=rt, p1=p1, p2=p2, en=en, inp=list(inp), state={2: en}) for p1 in (False, True) for p2 in (False, True) for en in (False, True)
+           for rt in (False, True) for inp in itertools.product([False, True], repeat=4)]
     n += run_walk(ctx, sug, "sugar", mode="walksugar")
     ctx.notes["sugar_application_states_walked"] = len(sug)
     ctx.notes["tables_walked"] = n
